@@ -45,8 +45,9 @@ ASSUMPTIONS = [
     "dns.asyncquery has its own model functions (backend recv/recvfrom/sendall calls with a per-call timeout) and theorems; "
     "the backend socket's contract (recv returns at most n octets, b'' at EOF, raises Timeout after its timeout; sendall sends all or "
     "times out) is the scripted fake's",
-    "the model reads 'shorter than a header', id, QR, opcode, TC from the datagram's own octets; what the reader finds after the "
-    "12-octet header (question entries, EDNS flags, whether and how it raised, trailing octets) is a summary; the reader itself is C03/C04",
+    "the model reads 'shorter than a header', id, QR, opcode, TC and the whole question section (labels, compression pointers, type, "
+    "class, qdcount, the UPDATE zone rule) from the datagram's own octets; what the reader finds after the question section (EDNS "
+    "flags, whether and how a record raised, trailing octets) is a summary; the record reader itself is C03/C04",
 ]
 
 AF4 = int(socket.AF_INET)
@@ -2057,13 +2058,14 @@ LEVEL = {
             "forged one does not end an ignore_errors exchange; for every split of the stream into chunks and would-block events receive_tcp "
             "returns exactly the first length-prefixed message and _net_write emits exactly the message octets; early EOF or an expired "
             "deadline is an error; a truncated UDP reply in udp_with_fallback leads to exactly one TCP exchange with the same query and TCP "
-            "is used in no other case; the acceptance predicate is proved about the datagram's header octets (id, QR, opcode, TC, length >= 12); "
+            "is used in no other case; the acceptance predicate is proved about the datagram's header octets (id, QR, opcode, TC, length >= 12) "
+            "and its question octets (returned_question_octets); "
             "dns.asyncquery's _read_exactly / receive_tcp / send_tcp / tcp / receive_udp / udp / udp_with_fallback have their own model "
             "functions (backend calls with per-call timeouts), proved to compute the same results and to satisfy the same theorems. The model is tied to the code by a differential correspondence check through scripted sockets on the public "
             "sock= parameters (real _wait_for over a scripted selector and virtual clock) and by constants regenerated from the working tree.",
     "note": "Trusted: Lean kernel + propext/Classical.choice/Quot.sound; statements in lean/Props/C18.lean; the scripted socket/selector "
             "fakes (socket, selector and async backend contracts) and the independent datagram encoder; generator coverage. "
-            "What the reader finds after the 12-octet header is a summary (C03/C04 own the reader).",
+            "What the reader finds after the question section is a summary (C03/C04 own the record reader).",
     "technique": "Lean 4 proof (induction over datagram scripts / chunk lists) + model-vs-implementation correspondence over scripted sockets",
     "design_ref": "DESIGN.md §7 C18",
 }
